@@ -12,9 +12,9 @@ THEORY = "pysmt.oracles.TheoryOracle"
 
 EXPLANATION = (
     "Static analysis of pysmt/oracles.py: exhaustive dispatch of the five oracles (R1); the transfer "
-    "function of every handler, interpreted in the provenance domain, equals the structural "
-    "definition of free variables / atoms / quantifier-freeness / sizes / sorts (R2, abstract "
-    "interpreter); every operator that carries a sort in its payload contributes it to the sort "
+    "five oracles (six size measures), interpreted on 85 operator skeletons with binders, shadowing, "
+    "Boolean terms inside theory terms and shared sub-terms, equal independent structural reference "
+    "definitions (R2, abstract interpreter); every operator that carries a sort in its payload contributes it to the sort "
     "analysis, cross-checked against TheoryOracle (R3).")
 NOT_DECIDED = ["nothing beyond the structural definitions: semantic dependence follows from R2"]
 
